@@ -1,13 +1,50 @@
 //! Verification hook (compiled only with `--cfg quinn_rs_quinn_verif`).
+//!
+//! Component: `dedup` — the real `Dedup` (connection/spaces.rs) driven by integer ops.
 #![allow(missing_docs, dead_code, unused_imports, unreachable_pub, clippy::all)]
 use super::{Ops, Outs};
+use crate::connection::spaces::Dedup;
+
+/// dedup ops (one fresh `Dedup::new()` per case):
+///   [0, n]      insert(n)                          -> [dup (0/1), next]
+///   [1, l, u]   smallest_missing_in_interval(l, u) -> [0] (None) | [1, p]
+///   [2, l, u]   missing_in_interval(l, u)          -> [0/1]
+///   [3]         read-only probe                    -> [next, window >> 64, window & (2^64-1)]
+/// Arithmetic overflow / failed debug assertions panic (harness prints PANIC for the case).
+fn dedup(ops: &Ops) -> Outs {
+    let mut d = Dedup::new();
+    ops.iter()
+        .map(|op| match op[0] {
+            0 => {
+                let dup = d.insert(op[1] as u64);
+                vec![dup as i128, d.verif_next() as i128]
+            }
+            1 => match d.verif_smallest_missing_in_interval(op[1] as u64, op[2] as u64) {
+                None => vec![0],
+                Some(p) => vec![1, p as i128],
+            },
+            2 => vec![d.verif_missing_in_interval(op[1] as u64, op[2] as u64) as i128],
+            3 => {
+                let w = d.verif_window();
+                vec![d.verif_next() as i128, (w >> 64) as i128, (w & u64::MAX as u128) as i128]
+            }
+            _ => vec![-1],
+        })
+        .collect()
+}
 
 /// Interpret `ops` for component `comp`; `None` if `comp` is not served by this module.
-pub(crate) fn run(_comp: &str, _ops: &Ops) -> Option<Outs> {
-    None
+pub(crate) fn run(comp: &str, ops: &Ops) -> Option<Outs> {
+    match comp {
+        "dedup" => Some(dedup(ops)),
+        _ => None,
+    }
 }
 
 /// Constants of this component for `coq/gen/Constants.v`.
 pub(crate) fn constants() -> Vec<(&'static str, i128)> {
-    vec![]
+    vec![
+        ("DEDUP_WINDOW_SIZE", crate::connection::spaces::verif_dedup_window_size() as i128),
+        ("DEDUP_WINDOW_BITS", crate::connection::spaces::verif_dedup_window_bits() as i128),
+    ]
 }
